@@ -10,7 +10,7 @@ from engine.ctx import exc_label
 
 FUNCTIONS = ['bycycle.cyclepoints.phase.extrema_interpolated_phase', 'bycycle.cyclepoints.phase._merge_phases']
 BOUNDS = {'quick': 'signal length N <= 9, 2..4 alternating extrema, midpoints supplied or None, optionally a leading / trailing midpoint outside the extrema (N <= 8, <= 3 extrema)',
-          'thorough': 'signal length N <= 12, 2..5 alternating extrema, midpoints supplied or None'}
+          'thorough': 'signal length N <= 14, 2..6 alternating extrema, midpoints supplied or None'}
 OUTSIDE = 'longer arrays; IEEE rounding inside np.interp (exact reals are used)'
 STUBS = []
 ASSUMPTIONS = ['extrema alternate and are >= 2 samples apart; each midpoint lies inside its flank (inclusive)',
@@ -18,7 +18,7 @@ ASSUMPTIONS = ['extrema alternate and are >= 2 samples apart; each midpoint lies
 
 
 def configs(tier):
-    top_n, top_k = (9, 4) if tier == 'quick' else (12, 5)
+    top_n, top_k = (9, 4) if tier == 'quick' else (14, 6)
     out = []
     for n in range(3, top_n + 1):
         for k in range(2, top_k + 1):
